@@ -13,6 +13,7 @@
 use crate::cli::{cli_games, efg_file, json_file, parse_output, printed_profile, run_cli, sanitize, work_dir, write_file, EfgStyle, GameFile};
 use crate::framework::{close, Ctx};
 use crate::refmodel::{game_dims, ref_eval};
+use crate::tree::Tree;
 use rayon::prelude::*;
 use serde_json::{json, Value};
 
@@ -100,6 +101,20 @@ pub fn run(ctx: &Ctx) -> i32 {
             let path = write_file(&dir, &format!("{}-{}.{}", files.len(), sanitize(&file.label), file.format), &file.text);
             files.push((file, path));
         }
+    }
+    // one outcome number used at a terminal AND at an interior node, with a non-zero constant
+    {
+        use crate::tree::{p, t};
+        let text = "EFG 2 R \"shared id\" { \"one\" \"two\" }\np \"\" 1 1 \"r\" { \"L\" \"R\" } 0\nt \"\" 1 \"fee\" { 1, 1 }\np \"\" 2 1 \"z\" { \"l\" \"r\" } 1\nt \"\" 2 \"\" { 3, -3 }\nt \"\" 3 \"\" { -1, 1 }\n";
+        let model = p(0, "r", vec![("L", t(1.0)), ("R", p(1, "z", vec![("l", t(4.0)), ("r", t(0.0))]))]);
+        let file = GameFile { label: "shared_outcome_id:sum2".into(), text: text.to_string(), format: "efg", model, sum: 2.0, canonical_order: true };
+        let path = write_file(&dir, &format!("{}-shared-id.efg", files.len()), &file.text);
+        files.push((file, path));
+        let text = "EFG 2 R \"shared id chance\" { \"one\" \"two\" }\np \"\" 1 1 \"r\" { \"L\" \"R\" } 0\nt \"\" 1 \"fee\" { 1, 1 }\nc \"\" 1 \"k\" { \"o0\" 1/4 \"o1\" 3/4 } 1\nt \"\" 2 \"\" { 3, -3 }\nt \"\" 3 \"\" { -1, 1 }\n";
+        let model = p(0, "r", vec![("L", t(1.0)), ("R", Tree::C(None, vec![(1.0, t(4.0)), (3.0, t(0.0))]))]);
+        let file = GameFile { label: "shared_outcome_id_chance:sum2".into(), text: text.to_string(), format: "efg", model, sum: 2.0, canonical_order: true };
+        let path = write_file(&dir, &format!("{}-shared-id-chance.efg", files.len()), &file.text);
+        files.push((file, path));
     }
     ctx.set("games", json!(games.len()));
     ctx.set("files", json!(files.len()));
